@@ -504,6 +504,23 @@ impl Prop for C15 {
                 }
             }
         }
+        if !tier.thorough() {
+            // a slice of the three-operand space in the quick tier: string operands only, every operator pair, IA5String
+            for a in 0..4 {
+                for b in 0..4 {
+                    for c3 in 0..4 {
+                        for o1 in ['U', 'I', 'E'] {
+                            for o2 in ['U', 'I', 'E'] {
+                                if (o1 == 'E' && o2 == 'E') || a == b || b == c3 {
+                                    continue;
+                                }
+                                out.push(Case { ty: "IA5".into(), cons: vec![Expr { operands: vec![a, b, c3], ops: vec![o1, o2] }], size: "none".into(), ctx: "assign".into() });
+                            }
+                        }
+                    }
+                }
+            }
+        }
         if tier.thorough() {
             for ty in ["IA5", "Printable"] {
                 for a in 0..10 {
